@@ -27,6 +27,8 @@ def one(sid, suite_missing, tier):
     if SEED is not None:
         cmd += ["--seed", str(SEED)]
     p = subprocess.run(cmd, capture_output=True, text=True)
+    if p.returncode != 0:      # seedtest itself failed (e.g. the patch no longer applies): never report a stale meta.json
+        return sid, None, None, None, None, "seedtest failed: " + (p.stdout + p.stderr).strip().splitlines()[-1][:200]
     try:
         m = json.load(open(os.path.join(d, "meta.json")))
         det = m.get("detected_by") if SEED is None else m.get("by_seed", {}).get(str(SEED))
